@@ -419,8 +419,21 @@ def oracle_call(c):
 
 
 def check_call_history(spec, ctx):
-    calls = [list(c) for c in spec["calls"]] + [["sweep_syn"]]
+    calls = [list(c) for c in spec["calls"]] + [["sweep_syn_held"], ["sweep_syn"]]
     got = ask_pristine(calls)
+    held = got[-2]
+    got = got[:-2] + got[-1:]
+    calls = calls[:-2] + calls[-1:]
+    if any(isinstance(c[1], str) and ("U" in c[1].upper()) for c in spec["calls"] if len(c) > 1 and c[0] in ("syn", "translate", "stop", "strict", "canon", "start", "str")):
+        ctx.label("rna_spelling_in_history")
+    if "exc" in held:
+        ctx.fail("held_sweep_raised", held)
+    else:
+        for k in STRICT64:
+            fam = sorted(x for x in STRICT64 if std_translate(x) == std_translate(k))
+            incl, excl, aa, stop, strict, text, start1, in11, samehash, same = held["v"][k]
+            ctx.eq("held_object_after_history", [incl, excl, aa, stop, strict, text, start1, in11, samehash, same],
+                   [fam, [x for x in fam if x != k], std_translate(k), k in _T1.stop_codons, True, k, k in _T1.start_codons, k in _T11.start_codons, True, True], extra=k)
     fams = {}
     for c in calls[:-1]:
         if c[0] == "syn" and set(c[1].upper()) <= set("ACGT"):
@@ -460,7 +473,7 @@ def check_call_history(spec, ctx):
 def strat_history(draw, tier="quick"):
     fams = draw(st.lists(st.sampled_from("GLSRA*MWFKIV"), min_size=1, max_size=3))
     pool = [x for x in STRICT64 if std_translate(x) in fams]
-    amb = [p[:2] + "N" for p in pool] + ["NNN", "RAY", "ggn"]
+    amb = [p[:2] + "N" for p in pool] + ["NNN", "RAY", "ggn"] + [p.replace("T", "U") for p in pool if "T" in p] + [p.replace("T", "u").lower() for p in pool if "T" in p][:4]
     codon = st.one_of(st.sampled_from(pool), st.sampled_from(pool).map(str.lower), st.sampled_from(amb), st.sampled_from(STRICT64))
     one = st.one_of(
         st.tuples(st.just("syn"), codon, st.booleans()),
@@ -522,7 +535,7 @@ PROP = Prop(
             rule="each history runs in a child forked from a pristine interpreter: every single first synonym question (80 codons x include_self) and every "
                  "ordered pair of questions inside the Gly, stop and Ile families, each followed by a sweep of the whole synonym partition"),
         Leg("call_histories", check_call_history, strategy=strat_history, n_quick=150, n_thorough=2500, shards_quick=4,
-            must_hit=["same_family_both_flags", "family_first_asked_without_self"],
+            must_hit=["same_family_both_flags", "family_first_asked_without_self", "rna_spelling_in_history"],
             rule="random histories of 1..10 table questions (codon synonyms/translation/start/stop in 1..3 amino-acid families, frame shift/phase, strand algebra, "
                  "reverse complement), each on pristine process state, each followed by the whole-partition sweep"),
     ],
